@@ -427,6 +427,30 @@ class Body:
     def can_reach(self, a, b, avoid_blocks=()):
         return b in self.reachable_from(a, avoid_blocks=avoid_blocks)
 
+    def natural_loops(self):
+        """header block -> set of blocks of the natural loop (union over its back edges)"""
+        loops = {}
+        for t in self.reach:
+            for h in self.succ[t]:
+                if self.dominates(h, t):
+                    body = loops.setdefault(h, {h})
+                    st = [t]
+                    while st:
+                        x = st.pop()
+                        if x in body:
+                            continue
+                        body.add(x)
+                        st.extend(self.pred[x])
+        return loops
+
+    def loop_of(self, bb):
+        """innermost natural loop (header, blocks) that contains bb, or None"""
+        best = None
+        for h, blocks in self.natural_loops().items():
+            if bb in blocks and (best is None or len(blocks) < len(best[1])):
+                best = (h, blocks)
+        return best
+
     # ---------------------------------------------------------------- iteration helpers
     def positions(self):
         for bi in sorted(self.reach):
